@@ -202,3 +202,70 @@ pub fn run(cfgs: &[String], cases_file: &str, seed: u64, sample: usize, out_dir:
     out.finish();
     json!({"cfg":"hostile","mode":"confinement","names":"ascii","b":1,"events":out.total_events,"segments":out.segments,"edges_run":n,"distinct_state_ops":n,"arguments":args.len()})
 }
+
+/// C13: directory content found on disk that the library did not create (non-UTF-8 names, dangling
+/// symlinks, a symlink loop) must not make PhysicalFS (or adapters over it) panic.
+pub fn run_hostile_dir(cfgs: &[String], out_dir: &Path) -> Value {
+    use std::os::unix::ffi::OsStringExt;
+    let mut out = TraceOut::new(out_dir, "hostiledir");
+    let mut n = 0u64;
+    for cfg in cfgs {
+        let w = build(cfg);
+        let sandbox = match w.tmp.get(0) {
+            Some(s) => s.clone(),
+            None => continue,
+        };
+        // locate the directory that backs the configuration's root (phys: <sandbox>/root; alt(P,phys): <sandbox>/root/P)
+        let mut backing = sandbox.join("root");
+        if let Some(u) = &w.under {
+            for c in &u.prefix {
+                backing = backing.join(c);
+            }
+        }
+        let _ = w.root.join("d").and_then(|p| p.create_dir());
+        let _ = w.root.join("f").and_then(|p| p.create_file().map(|mut h| h.write_all(b"x").unwrap()));
+        for dir in [backing.clone(), backing.join("d")] {
+            let bad = std::ffi::OsString::from_vec(vec![b'n', 0xFF, 0xFE, b'x']);
+            let _ = std::fs::write(dir.join(&bad), b"non-utf8 name");
+            let _ = std::os::unix::fs::symlink("/nonexistent/target", dir.join("dangling"));
+            let _ = std::os::unix::fs::symlink("loop", dir.join("loop"));
+            let _ = std::os::unix::fs::symlink(".", dir.join("self"));
+        }
+        let mut ops = vec![];
+        let mut rec = |op: &str, c: &str| ops.push(json!({"op":op,"c":c}));
+        let root = &w.root;
+        rec("read_dir(root)", cls(guard(|| root.read_dir().map(|it| it.count()))));
+        rec("walk_dir(root)", cls(guard(|| root.walk_dir().map(|it| it.take(200).count()))));
+        for name in ["dangling", "loop", "d/dangling", "d/loop", "self"] {
+            let p = match root.join(name) {
+                Ok(p) => p,
+                Err(_) => continue,
+            };
+            rec(&format!("exists({name})"), cls(guard(|| p.exists())));
+            rec(&format!("metadata({name})"), cls(guard(|| p.metadata())));
+            rec(&format!("is_dir({name})"), cls(guard(|| p.is_dir())));
+            rec(&format!("read_dir({name})"), cls(guard(|| p.read_dir().map(|it| it.take(50).count()))));
+            rec(&format!("open_file({name})"), cls(guard(|| p.open_file().map(|mut h| { let mut b = vec![]; let _ = h.read_to_end(&mut b); }))));
+            rec(&format!("read_to_string({name})"), cls(guard(|| p.read_to_string())));
+            rec(&format!("create_dir({name})"), cls(guard(|| p.create_dir())));
+            rec(&format!("create_dir_all({name}/x)"), cls(guard(|| p.join("x").and_then(|q| q.create_dir_all()))));
+            rec(&format!("create_file({name})"), cls(guard(|| p.create_file().map(|mut h| h.write_all(b"y")))));
+            rec(&format!("append_file({name})"), cls(guard(|| p.append_file().map(|mut h| h.write_all(b"y")))));
+            rec(&format!("set_mtime({name})"), cls(guard(|| p.set_modification_time(tick(2)))));
+            rec(&format!("copy_file({name})"), cls(guard(|| p.copy_file(&root.join("copy_of").unwrap()))));
+            rec(&format!("remove_file({name})"), cls(guard(|| p.remove_file())));
+            rec(&format!("remove_dir({name})"), cls(guard(|| p.remove_dir())));
+        }
+        rec("read_dir(d)", cls(guard(|| root.join("d").unwrap().read_dir().map(|it| it.count()))));
+        rec("copy_dir(d)", cls(guard(|| root.join("d").unwrap().copy_dir(&root.join("d2").unwrap()))));
+        rec("move_dir(d)", cls(guard(|| root.join("d").unwrap().move_dir(&root.join("d3").unwrap()))));
+        rec("remove_dir_all(d3)", cls(guard(|| root.join("d3").unwrap().remove_dir_all())));
+        rec("remove_dir_all(d)", cls(guard(|| root.join("d").unwrap().remove_dir_all())));
+        rec("walk_dir(root) again", cls(guard(|| root.walk_dir().map(|it| it.take(200).count()))));
+        out.begin(&json!({"ev":"hostile","kindtag":"hostiledir","cfg":cfg,"arg":"<directory content prepared with std::fs: non-UTF-8 name, dangling symlink, symlink loop>","prefix":[],
+            "join":{"c":"ok","path":""},"ops":ops,"ucalls":[],"outside_before":[],"outside_after":[],"leak":false,"shape":{"dotdot":false,"dslash":false,"abs":false}}));
+        n += 1;
+    }
+    out.finish();
+    json!({"cfg":"hostiledir","mode":"hostile-directory","names":"ascii","b":1,"events":out.total_events,"segments":out.segments,"edges_run":n,"distinct_state_ops":n})
+}
